@@ -51,6 +51,12 @@ def gen(rng, sid):
         sa, da = ip6(s6), ip6(d6)
     else:
         sip, dip = rng.randrange(1, 0xdfffffff), rng.randrange(1, 0xdfffffff)
+        bcast4 = rng.random() < 0.2
+        if bcast4:
+            # limited broadcast (DHCP, discovery): anybody may answer, but the answer must be addressed to us -- unless we have no address yet
+            dip = 0xffffffff
+            if l2 != 'none' and rng.random() < 0.3:
+                sip = 0
         lines += ['set %d src_addr %d' % (k, sip), 'set %d dst_addr %d' % (k, dip), 'set %d id %d' % (k, ident)]
         sa, da = ip4(sip), ip4(dip)
     sport, dport = rng.randrange(65536), rng.randrange(65536)
@@ -114,6 +120,11 @@ def gen(rng, sid):
         hl = 20
         reply_l3 = struct.pack('>BBHHHBBH', 0x45, 0, 20 + len(reply_l4), rng.randrange(65536), 0, 64, proto, 0) + da + sa + reply_l4
         l3fields = [('ip source', 12, 4), ('ip destination', 16, 4)]
+        if bcast4:
+            # the answer comes from whoever answers, addressed to the requester (to anybody when the requester had no address)
+            rsrc = ip4(rng.randrange(1, 0xdfffffff))
+            reply_l3 = reply_l3[:12] + rsrc + (sa if sip else ip4(rng.choice([0xffffffff, rng.randrange(1, 0xdfffffff)]))) + reply_l3[20:]
+            l3fields = [('ip destination', 16, 4)] if sip else []
         # the mirrored reply may carry IPv4 options of its own (longer header than the request's), also cut inside them
         ropt = 4 * rng.randrange(1, 11)
         reply_opt = struct.pack('>BBHHHBBH', 0x40 | ((20 + ropt) // 4), 0, 20 + ropt + len(reply_l4), rng.randrange(65536), 0, 64, proto, 0) + da + sa + bytes([1] * ropt) + reply_l4
